@@ -17,6 +17,8 @@ import (
 	"sort"
 	"strings"
 
+	"github.com/sarchlab/akita/v4/mem/mem"
+	"github.com/sarchlab/akita/v4/sim"
 	"github.com/sarchlab/mgpusim/v4/amd/emu"
 	"github.com/sarchlab/mgpusim/v4/amd/insts"
 	"github.com/sarchlab/mgpusim/v4/amd/kernels"
@@ -30,7 +32,8 @@ const (
 	sFileBytes = 3200 * 4  // default CU builder: 3200 SGPRs
 	vFileBytes = 16384 * 4 // default CU builder: 16384 VGPRs per SIMD
 	laneBytes  = 1024      // equipRegisterFiles: ByteSizePerLane of the vector files
-	numSIMD    = 2
+	numSIMD    = 4         // default CU builder: four SIMD units (wavefronts are placed on the first two)
+	dumpCap    = 2048      // at most this many differing cells / bytes are listed per file (the total is always reported)
 )
 
 type Wave struct {
@@ -42,9 +45,12 @@ type Wave struct {
 }
 
 type Obs struct {
-	Panic bool     `json:"panic,omitempty"`
-	Bytes []int    `json:"bytes,omitempty"`
-	Val   *uint64  `json:"val,omitempty"`
+	Panic bool    `json:"panic,omitempty"`
+	Bytes []int   `json:"bytes,omitempty"` // content of the returned slice at the END of the history
+	Val   *uint64 `json:"val,omitempty"`
+	// the returned slice changed after it was handed out (it aliases storage or another answer)
+	Mutated bool  `json:"mutated,omitempty"`
+	First   []int `json:"first,omitempty"` // what it held when it was returned, if different
 }
 
 type Acc struct {
@@ -58,6 +64,7 @@ type Acc struct {
 	BC   int    `json:"bc,omitempty"`
 	Data []int  `json:"data,omitempty"`
 	Val  uint64 `json:"val,omitempty"`
+	Lanes []int `json:"lanes,omitempty"` // vload: the lanes that receive Cnt dwords each (Data back to back)
 	Emu  *Obs   `json:"emu,omitempty"`
 	Tim  *Obs   `json:"tim,omitempty"`
 }
@@ -65,6 +72,8 @@ type Acc struct {
 type EmuDump struct {
 	S    [][2]uint64 `json:"s"` // (index, dword) where different from the initial fill
 	V    [][3]uint64 `json:"v"` // (lane, index, dword)
+	NS   int         `json:"ns"` // number of differing cells (the lists are capped at dumpCap)
+	NV   int         `json:"nv"`
 	Vcc  uint64      `json:"vcc"`
 	Exec uint64      `json:"exec"`
 	Scc  uint64      `json:"scc"`
@@ -74,6 +83,8 @@ type EmuDump struct {
 type TimDump struct {
 	S    [][2]uint64 `json:"s"` // (byte address, byte) of the shared scalar file
 	V    [][3]uint64 `json:"v"` // (simd, byte address, byte)
+	NS   int         `json:"ns"` // number of differing bytes (the lists are capped at dumpCap)
+	NV   int         `json:"nv"`
 	Vcc  []uint64    `json:"vcc"`
 	Exec []uint64    `json:"exec"`
 	Scc  []uint64    `json:"scc"`
@@ -142,22 +153,26 @@ func newWorld(waves []Wave) *world {
 		e.M0 = m00(w)
 		x.ewf = append(x.ewf, e)
 	}
-	x.cu = &cu.ComputeUnit{}
-	sf := cu.NewSimpleRegisterFile(sFileBytes, 0)
+	// a real compute unit from the public builder (3200 SGPRs, 4 x 16384 VGPRs), ports on a stub connection
+	x.cu = cu.MakeBuilder().WithEngine(sim.NewSerialEngine()).Build("CU")
+	conn := &vh.StubConn{}
+	for _, p := range []sim.Port{x.cu.ToACE, x.cu.ToCP, x.cu.ToInstMem, x.cu.ToScalarMem, x.cu.ToVectorMem} {
+		conn.PlugIn(p)
+	}
+	if len(x.cu.VRegFile) != numSIMD {
+		panic("the CU builder no longer makes four SIMD register files")
+	}
 	buf := make([]byte, sFileBytes)
 	for a := range buf {
 		buf[a] = sInit(waves, a)
 	}
-	sf.Write(cu.RegisterAccess{Reg: insts.SReg(0), RegCount: sFileBytes / 4, Data: buf})
-	x.cu.SRegFile = sf
+	fillFile(x.cu.SRegFile, insts.SReg(0), buf)
 	for s := 0; s < numSIMD; s++ {
-		vf := cu.NewSimpleRegisterFile(vFileBytes, laneBytes)
 		vb := make([]byte, vFileBytes)
 		for a := range vb {
 			vb[a] = vInit(waves, s, a)
 		}
-		vf.Write(cu.RegisterAccess{Reg: insts.VReg(0), RegCount: vFileBytes / 4, Data: vb})
-		x.cu.VRegFile = append(x.cu.VRegFile, vf)
+		fillFile(x.cu.VRegFile[s], insts.VReg(0), vb)
 	}
 	for w, wv := range waves {
 		raw := kernels.NewWavefront()
@@ -173,6 +188,22 @@ func newWorld(waves []Wave) *world {
 		x.twf = append(x.twf, t)
 	}
 	return x
+}
+
+// fillFile / readFile move a whole register file through the RegisterFile API:
+// everything but the last dword in one access, the last dword — an access that
+// ends exactly at the end of the file — in a second one.
+func fillFile(f cu.RegisterFile, r0 *insts.Reg, data []byte) {
+	n := len(data)
+	f.Write(cu.RegisterAccess{Reg: r0, RegCount: n/4 - 1, Data: data[: n-4 : n-4]})
+	f.Write(cu.RegisterAccess{Reg: r0, RegCount: 1, WaveOffset: n - 4, Data: data[n-4:]})
+}
+
+func readFile(f cu.RegisterFile, r0 *insts.Reg, n int) []byte {
+	data := make([]byte, n)
+	f.Read(cu.RegisterAccess{Reg: r0, RegCount: n/4 - 1, Data: data[: n-4 : n-4]})
+	f.Read(cu.RegisterAccess{Reg: r0, RegCount: 1, WaveOffset: n - 4, Data: data[n-4:]})
+	return data
 }
 
 var specialRegs = map[string]insts.RegType{
@@ -222,18 +253,29 @@ func toInts(b []byte) []int {
 	return xs
 }
 
-func do(st regState, a *Acc) (o *Obs) {
+func do(st regState, a *Acc) (o *Obs, raw []byte) {
 	o = &Obs{}
 	defer func() {
 		if r := recover(); r != nil {
 			*o = Obs{Panic: true}
+			raw = nil
 		}
 	}()
+	if a.API == "sload" { // emulation counterpart of a scalar-load reply: the ALU writes the operand bytes
+		st.WriteOperandBytes(insts.NewSRegOperand(0, a.Idx, len(a.Data)/4), 0, toBytes(a.Data))
+		return o, nil
+	}
+	if a.API == "vload" {
+		for k, lane := range a.Lanes {
+			st.WriteOperandBytes(insts.NewVRegOperand(0, a.Idx, a.Cnt), lane, toBytes(a.Data[4*a.Cnt*k:4*a.Cnt*(k+1)]))
+		}
+		return o, nil
+	}
 	op := operand(a)
 	switch a.API {
 	case "rb":
-		got := st.ReadOperandBytes(op, a.Lane, a.BC)
-		o.Bytes = toInts(got)
+		raw = st.ReadOperandBytes(op, a.Lane, a.BC) // kept by the caller until the end of the history
+		o.Bytes = toInts(raw)
 		if o.Bytes == nil {
 			o.Bytes = []int{}
 		}
@@ -246,6 +288,33 @@ func do(st regState, a *Acc) (o *Obs) {
 		st.WriteOperand(op, a.Lane, a.Val)
 	default:
 		panic("bad api " + a.API)
+	}
+	return o, raw
+}
+
+// foreign runs the writers that reach the timing register files without the
+// wavefront's accessor: the compute unit's real load-reply handlers.
+func (x *world) foreign(a *Acc) (o *Obs) {
+	o = &Obs{}
+	defer func() {
+		if r := recover(); r != nil {
+			*o = Obs{Panic: true}
+		}
+	}()
+	wf := x.twf[a.W]
+	switch a.API {
+	case "sload":
+		req := mem.ReadReqBuilder{}.WithSrc(x.cu.ToScalarMem.AsRemote()).WithDst(sim.RemotePort("ScalarMem")).
+			WithByteSize(uint64(len(a.Data))).Build()
+		x.cu.InFlightScalarMemAccess = append(x.cu.InFlightScalarMemAccess, &cu.ScalarMemAccessInfo{
+			Req: req, Wavefront: wf, DstSGPR: insts.SReg(a.Idx),
+			Inst: wavefront.NewInst(&insts.Inst{Format: insts.FormatTable[insts.SMEM], InstType: &insts.InstType{InstName: "s_load_dword"}})})
+		wf.OutstandingScalarMemAccess++
+		rsp := mem.DataReadyRspBuilder{}.WithSrc(sim.RemotePort("ScalarMem")).WithDst(x.cu.ToScalarMem.AsRemote()).
+			WithRspTo(req.ID).WithData(toBytes(a.Data)).Build()
+		cu.VerifScalarLoadReturn(x.cu, rsp)
+	case "vload":
+		cu.VerifVectorLoadWriteBack(x.cu, wf, insts.VReg(a.Idx), a.Cnt, a.Lanes, toBytes(a.Data))
 	}
 	return o
 }
@@ -261,7 +330,23 @@ func (x *world) reset(a *Acc) (o *Obs) {
 	return o
 }
 
+func settle(o *Obs, raw []byte) {
+	if o == nil || o.Panic || raw == nil {
+		return
+	}
+	final := toInts(raw)
+	same := len(final) == len(o.Bytes)
+	for k := 0; same && k < len(final); k++ {
+		same = final[k] == o.Bytes[k]
+	}
+	if !same {
+		o.Mutated, o.First, o.Bytes = true, o.Bytes, final
+	}
+}
+
 func (x *world) run(c *Case) {
+	heldE := make([][]byte, len(c.Accs))
+	heldT := make([][]byte, len(c.Accs))
 	for i := range c.Accs {
 		a := &c.Accs[i]
 		a.Emu, a.Tim = nil, nil
@@ -271,11 +356,20 @@ func (x *world) run(c *Case) {
 			continue
 		}
 		if a.Side != "timing" {
-			a.Emu = do(x.ewf[a.W], a)
+			a.Emu, heldE[i] = do(x.ewf[a.W], a)
 		}
 		if a.Side != "emu" {
-			a.Tim = do(x.twf[a.W], a)
+			if a.API == "sload" || a.API == "vload" {
+				a.Tim = x.foreign(a)
+			} else {
+				a.Tim, heldT[i] = do(x.twf[a.W], a)
+			}
 		}
+	}
+	// every answer is held by the caller until the end of the history: it must still be what was returned
+	for i := range c.Accs {
+		settle(c.Accs[i].Emu, heldE[i])
+		settle(c.Accs[i].Tim, heldT[i])
 	}
 	c.EmuEnd = nil
 	for w, e := range x.ewf {
@@ -283,7 +377,9 @@ func (x *world) run(c *Case) {
 		for i := 0; i < 102; i++ {
 			init := uint32(pat(w+1, 4*i)) | uint32(pat(w+1, 4*i+1))<<8 | uint32(pat(w+1, 4*i+2))<<16 | uint32(pat(w+1, 4*i+3))<<24
 			if v := e.SRegValue(i); v != init {
-				d.S = append(d.S, [2]uint64{uint64(i), uint64(v)})
+				if d.NS++; d.NS <= dumpCap {
+					d.S = append(d.S, [2]uint64{uint64(i), uint64(v)})
+				}
 			}
 		}
 		for l := 0; l < 64; l++ {
@@ -291,26 +387,30 @@ func (x *world) run(c *Case) {
 				a := l*1024 + 4*i
 				init := uint32(pat(w+11, a)) | uint32(pat(w+11, a+1))<<8 | uint32(pat(w+11, a+2))<<16 | uint32(pat(w+11, a+3))<<24
 				if v := e.VRegValue(l, i); v != init {
-					d.V = append(d.V, [3]uint64{uint64(l), uint64(i), uint64(v)})
+					if d.NV++; d.NV <= dumpCap {
+						d.V = append(d.V, [3]uint64{uint64(l), uint64(i), uint64(v)})
+					}
 				}
 			}
 		}
 		c.EmuEnd = append(c.EmuEnd, d)
 	}
 	td := &TimDump{S: [][2]uint64{}, V: [][3]uint64{}}
-	sb := make([]byte, sFileBytes)
-	x.cu.SRegFile.Read(cu.RegisterAccess{Reg: insts.SReg(0), RegCount: sFileBytes / 4, Data: sb})
+	sb := readFile(x.cu.SRegFile, insts.SReg(0), sFileBytes)
 	for a, b := range sb {
 		if b != sInit(x.waves, a) {
-			td.S = append(td.S, [2]uint64{uint64(a), uint64(b)})
+			if td.NS++; td.NS <= dumpCap {
+				td.S = append(td.S, [2]uint64{uint64(a), uint64(b)})
+			}
 		}
 	}
 	for s := 0; s < numSIMD; s++ {
-		vb := make([]byte, vFileBytes)
-		x.cu.VRegFile[s].Read(cu.RegisterAccess{Reg: insts.VReg(0), RegCount: vFileBytes / 4, Data: vb})
+		vb := readFile(x.cu.VRegFile[s], insts.VReg(0), vFileBytes)
 		for a, b := range vb {
 			if b != vInit(x.waves, s, a) {
-				td.V = append(td.V, [3]uint64{uint64(s), uint64(a), uint64(b)})
+				if td.NV++; td.NV <= dumpCap {
+					td.V = append(td.V, [3]uint64{uint64(s), uint64(a), uint64(b)})
+				}
 			}
 		}
 	}
@@ -374,6 +474,16 @@ func (c *Case) coq() string {
 			api = fmt.Sprintf("(AWriteU %d)", a.Val)
 		case "reset":
 			api = "AReset"
+		case "sload": // the reply handler calls SimpleRegisterFile.Write with RegCount = len(data)/4
+			as = append(as, fmt.Sprintf("(mkAcc %d (AWrite %s) (RS %d) %d 0, %s, %s)", a.W, vh.CoqBytes(toBytes(a.Data)),
+				a.Idx, len(a.Data)/4, coqObs(a.Emu), coqObs(a.Tim)))
+			continue
+		case "vload": // one register-file write per lane
+			for k, lane := range a.Lanes {
+				as = append(as, fmt.Sprintf("(mkAcc %d (AWrite %s) (RV %d) %d %d, %s, %s)", a.W,
+					vh.CoqBytes(toBytes(a.Data[4*a.Cnt*k:4*a.Cnt*(k+1)])), a.Idx, a.Cnt, lane, coqObs(a.Emu), coqObs(a.Tim)))
+			}
+			continue
 		}
 		as = append(as, fmt.Sprintf("(mkAcc %d %s %s %d %d, %s, %s)", a.W, api, coqRegOf(a), a.Cnt, a.Lane, coqObs(a.Emu), coqObs(a.Tim)))
 	}
@@ -403,17 +513,36 @@ func (c *Case) coq() string {
 
 // ---------------------------------------------------------------- generator
 
+// fullWaves is the fixed core layout that fills the files exactly: four
+// co-resident wavefronts of a 64-VGPR kernel on one SIMD (vector offsets
+// 0/256/512/768: the last one ends at the last byte of every lane, lane 63 at
+// the last byte of the file), the fourth one in the last 16-SGPR slot of the
+// scalar file.
+func fullWaves(r *vh.Rng) []Wave {
+	simd := r.Intn(2)
+	ws := make([]Wave, 4)
+	sCur := 64 * r.Intn(4)
+	for w := range ws {
+		ns := []int{16, 32, 102}[r.Intn(3)]
+		ws[w] = Wave{SOff: sCur, VOff: 256 * w, SIMD: simd, NSgpr: ns, NVgpr: 64}
+		sCur += (4*ns + 63) / 64 * 64
+	}
+	ws[3].NSgpr = 16
+	ws[3].SOff = sFileBytes - 64
+	return ws
+}
+
 func genWaves(r *vh.Rng, small bool) []Wave {
 	ws := make([]Wave, 3)
 	sCur := 64 * r.Intn(8)
-	vCur := [numSIMD]int{16 * r.Intn(4), 16 * r.Intn(4)}
+	vCur := [2]int{16 * r.Intn(4), 16 * r.Intn(4)}
 	for w := range ws {
 		ns := []int{16, 32, 48, 64, 96, 102, 102}[r.Intn(7)]
 		nv := []int{4, 8, 12, 24, 40, 64, 80}[r.Intn(7)]
 		if small { // histories with a register release: keep the zeroed area (and the dump) small
 			nv = []int{1, 4, 6}[r.Intn(3)]
 		}
-		simd := r.Intn(numSIMD)
+		simd := r.Intn(2)
 		if vCur[simd]+4*nv > laneBytes {
 			simd = 1 - simd
 		}
@@ -433,6 +562,11 @@ func genWaves(r *vh.Rng, small bool) []Wave {
 	// the scheduler may hand out the last wave of the file: put one wave at the very end sometimes
 	if r.Intn(4) == 0 {
 		ws[2].SOff = sFileBytes - 4*ws[2].NSgpr
+	}
+	if !small && r.Intn(4) == 0 { // ... and one whose vector allocation ends at the last byte of every lane
+		if w := r.Intn(3); ws[w].VOff+4*ws[w].NVgpr >= vCur[ws[w].SIMD] {
+			ws[w].VOff = laneBytes - 4*ws[w].NVgpr
+		}
 	}
 	return ws
 }
@@ -571,12 +705,67 @@ func genJunk(r *vh.Rng, c *Case, a *Acc) int {
 
 func genCase(r *vh.Rng, k int) *Case {
 	c := &Case{Waves: genWaves(r, k%10 == 9), Hostile: k%8 == 7}
+	if k%5 == 3 {
+		c.Waves = fullWaves(r)
+	}
+	nw := len(c.Waves)
 	n := 10 + r.Intn(51)
 	resetAt := r.Intn(n)
 	var written []Acc
 	for i := 0; i < n; i++ {
-		a := Acc{W: r.Intn(3)}
+		a := Acc{W: r.Intn(nw)}
 		var wd int
+		if !c.Hostile && r.Intn(100) < 9 {
+			// writers that reach the timing register files behind the accessor's back:
+			// scalar- and vector-load replies (the emulator writes the operand instead)
+			wv := c.Waves[a.W]
+			a.Side = "both"
+			if r.Bool() {
+				cnt := []int{1, 2, 2, 4, 8, 16}[r.Intn(6)]
+				if cnt > wv.NSgpr {
+					cnt = 1
+				}
+				a.API, a.Reg, a.Idx, a.Cnt = "sload", "s", pickIdx(r, wv.NSgpr, cnt), cnt
+				a.Data = randData(r, 4*cnt)
+				probe := Acc{W: a.W, Side: "both", API: []string{"ru", "rb"}[r.Intn(2)], Reg: "s", Idx: a.Idx, Cnt: cnt, BC: 4 * cnt}
+				if cnt == 1 {
+					probe.Cnt = r.Intn(2)
+				}
+				if r.Intn(4) > 0 { // the operand is read, overwritten by the reply, and read again (pointer chasing)
+					c.Accs = append(c.Accs, probe)
+					c.Accs = append(c.Accs, a)
+					c.Accs = append(c.Accs, probe)
+				} else {
+					c.Accs = append(c.Accs, a)
+				}
+			} else {
+				cnt := []int{1, 1, 2, 3, 4}[r.Intn(5)]
+				if cnt > wv.NVgpr {
+					cnt = 1
+				}
+				a.API, a.Reg, a.Idx, a.Cnt = "vload", "v", pickIdx(r, wv.NVgpr, cnt), cnt
+				if r.Intn(3) == 0 {
+					for l := 0; l < 64; l++ {
+						a.Lanes = append(a.Lanes, l)
+					}
+				} else {
+					seen := map[int]bool{}
+					for j := 1 + r.Intn(8); j > 0; j-- {
+						l := pickLane(r)
+						if !seen[l] {
+							seen[l] = true
+							a.Lanes = append(a.Lanes, l)
+						}
+					}
+					sort.Ints(a.Lanes)
+				}
+				a.Lane = a.Lanes[r.Intn(len(a.Lanes))]
+				a.Data = randData(r, 4*cnt*len(a.Lanes))
+				c.Accs = append(c.Accs, a)
+			}
+			written = append(written, Acc{W: a.W, Side: "both", Reg: a.Reg, Idx: a.Idx, Cnt: a.Cnt, Lane: a.Lane})
+			continue
+		}
 		junk := c.Hostile && r.Intn(4) == 0
 		isRead := r.Intn(100) < 55
 		if !junk && isRead && len(written) > 0 && r.Intn(100) < 60 {
@@ -601,7 +790,7 @@ func genCase(r *vh.Rng, k int) *Case {
 					a.Lane = (p.Lane + 1 + 62*r.Intn(2)) % 64
 				}
 			case 3:
-				w2 := (p.W + 1 + r.Intn(2)) % 3
+				w2 := (p.W + 1 + r.Intn(nw-1)) % nw
 				lim := c.Waves[w2].NSgpr
 				if a.Reg == "v" {
 					lim = c.Waves[w2].NVgpr
